@@ -346,6 +346,8 @@ def main(argv=None):
 
     # 2. committed regression corpus
     corpus_files = sorted(glob.glob(os.path.join(VERIF, "corpus", prop, "*.json")))
+    if os.environ.get("VERIF_NO_CORPUS"):  # development aid (selftest): judge the generated search alone
+        corpus_files = []
     corpus_replayed = 0
     for path in corpus_files:
         try:
